@@ -156,7 +156,17 @@ _REPR_NS = {"Forward": Forward, "Reverse": Reverse, "Copy": Copy, "Move": Move, 
             "EndReverse": EndReverse, "StorageType": StorageType, "sys": _sys}
 
 
-def drive(spec, passes=1, keep_stream=True, max_actions=2_000_000, observe=True, interfere=None):
+def _next_via_for(sched):
+    """One action obtained the way a client loop does: `for action in schedule: ...; break`.  A new
+    `for` statement is entered for every action, so the stream must survive leaving a loop and
+    iterating again (iter(schedule) is the schedule itself)."""
+    for a in sched:
+        return a
+    raise StopIteration
+
+
+def drive(spec, passes=1, keep_stream=True, max_actions=2_000_000, observe=True, interfere=None,
+          via_for=False):
     """Run the real class, feeding every action to the executor.
 
     Returns dict(viol=[(prop, clause, detail)], stream=[akey...], pass_streams, stats,
@@ -209,7 +219,7 @@ def drive(spec, passes=1, keep_stream=True, max_actions=2_000_000, observe=True,
             warnings.simplefilter("ignore")
             while count < max_actions:
                 try:
-                    a = next(sched)
+                    a = _next_via_for(sched) if via_for else next(sched)
                 except StopIteration:
                     if not ex.done:
                         ex.index = count
